@@ -233,11 +233,43 @@ Definition parse_value_p (u16 : bool) (c : cursor) : option (option snode * curs
         end
   end.
 
+(* the nodes of one map key as the harness lists them: Key, KeyPath, its segments, the value *)
+Definition key_group (base : nat) (start : ipos) (segs : list snode) (fin : ipos) (val : list gnode) : list gnode :=
+  (1, O, start, fin) :: (2, base, first_start segs start, last_end segs start) :: seg_nodes (S base) segs ++ val.
+
+Definition finish_key (base : nat) (start : ipos) (segs : list snode) (es : list irange)
+           (c3 : cursor) (val : list gnode) (es3 : list irange) : option (list gnode * cursor * list irange) :=
+  Some (key_group base start segs (fst c3) val, c3, es ++ es3).
+
+(* parseMapKeyValue after the key path: c2 = cursor behind the key path *)
+Definition parse_key_value_p (u16 : bool) (base : nat) (start : ipos) (segs : list snode) (es : list irange) (c2 : cursor)
+  : option (list gnode * cursor * list irange) :=
+  let '(k2, p2, l2) := c2 in
+  let '(nl, (k3, p3, l3)) := skip_sp_p u16 l2 k2 p2 false in
+  match l3 with
+  | [] => finish_key base start segs es c2 [] []
+  | r3 :: tl3 =>
+      if nl then finish_key base start segs es c2 [] []
+      else if (r3 =? cLP) || (r3 =? cLT) || (r3 =? cGT) || (r3 =? cDASH) || (r3 =? cLC) then None
+      else if negb (r3 =? cCOLON) then finish_key base start segs es c2 [] []
+      else
+        let c4 : cursor := (S k3, advance u16 p3 r3, tl3) in       (* commit ':' *)
+        match parse_value_p u16 c4 with
+        | None => None
+        | Some (None, c5, es5) =>
+            finish_key base start segs es c5 [] (es5 ++ [(back u16 (fst c5) cCOLON, fst c5)])
+        | Some (Some (kind, s, e, _), c5, es5) =>
+            let '(k5, p5, l5) := c5 in
+            let '(nl5, (_, _, l6)) := skip_sp_p u16 l5 k5 p5 false in
+            if negb nl5 && match l6 with r6 :: _ => r6 =? cLC | [] => false end then None
+            else finish_key base start segs es c5 [(kind, base, s, e)] es5
+        end
+  end.
+
 (* parseMapKey (+ parseMapKeyValue) entered with the cursor on the key's first rune.
    base = index the Key node gets in the node list *)
 Definition parse_map_key_p (u16 : bool) (base : nat) (c : cursor) : option (list gnode * cursor * list irange) :=
   let '(k, p, l) := c in
-  let start : ipos := (k, p) in
   match l with
   | [] => None
   | r :: tl =>
@@ -248,34 +280,7 @@ Definition parse_map_key_p (u16 : bool) (base : nat) (c : cursor) : option (list
         match parse_key_p u16 (S (length l)) c [] [] with
         | None => None
         | Some ([], _, _) => None
-        | Some (segs, c2, es) =>
-            let kp : gnode := (2, base, first_start segs start, last_end segs start) in
-            let key_nodes := kp :: seg_nodes (S base) segs in
-            let finish (c3 : cursor) (val : list gnode) (es3 : list irange) :=
-                let '(k3, p3, _) := c3 in
-                Some ((1, O, start, (k3, p3)) :: key_nodes ++ val, c3, es ++ es3) in
-            let '(k2, p2, l2) := c2 in
-            let '(nl, (k3, p3, l3)) := skip_sp_p u16 l2 k2 p2 false in
-            match l3 with
-            | [] => finish c2 [] []
-            | r3 :: tl3 =>
-                if nl then finish c2 [] []
-                else if (r3 =? cLP) || (r3 =? cLT) || (r3 =? cGT) || (r3 =? cDASH) || (r3 =? cLC) then None
-                else if negb (r3 =? cCOLON) then finish c2 [] []
-                else
-                  let c4 : cursor := (S k3, advance u16 p3 r3, tl3) in       (* commit ':' *)
-                  match parse_value_p u16 c4 with
-                  | None => None
-                  | Some (None, c5, es5) =>
-                      let '(k5, p5, _) := c5 in
-                      finish c5 [] (es5 ++ [(back u16 (k5, p5) cCOLON, (k5, p5))])
-                  | Some (Some (kind, s, e, _), c5, es5) =>
-                      let '(k5, p5, l5) := c5 in
-                      let '(nl5, (_, _, l6)) := skip_sp_p u16 l5 k5 p5 false in
-                      if negb nl5 && match l6 with r6 :: _ => r6 =? cLC | [] => false end then None
-                      else finish c5 [(kind, base, s, e)] es5
-                  end
-            end
+        | Some (segs, c2, es) => parse_key_value_p u16 base (k, p) segs es c2
         end
   end.
 
